@@ -13,6 +13,8 @@ R2  every allocation result reaches a storage location, the caller, or a release
 R3  REJECT scanners: every function that makes another buffer current goes on to compare yy_state_buf_max with the size of
     the buffer before it returns.
 R4  after a release of a pointer read from a field/global, that field/global is overwritten before the function returns.
+R8  C++: every member that yy_init_globals of the C scanners resets and that a member function reads is initialised on every
+    constructor path (sibling agreement ctor_common <-> yy_init_globals).
 R5  every field/static whose zero value triggers lazy initialisation is reset by yy_init_globals, which yylex_destroy calls
     after its frees; arrays released in yylex_destroy have their index/capacity companions reset too.
 """
@@ -866,6 +868,95 @@ def r7(rep, v, prog, mod, F):
                 rep.ok('C13.R7', '%s %s: %s.%s (from %s) is released on every path to return or re-acquisition' % (v.name, f.name, base[1], fld, c.callee))
     return n
 
+# ---------------------------------------------------------------- R8
+
+R8_EXCEPT = {
+    'yystateptr': 'assigned from yy_state_buf at the start of every match before any read',
+    'yylp': 'assigned from yy_accept[] in find_rule before it is tested',
+    'yyfullmatch': 'assigned in find_rule before the action that may read it through REJECT runs; the one break that does not assign it is taken only '
+                   'after yy_looking_for_trail_begin was set, which happens together with the assignment',
+}
+R8_WEAK = {'yyfullmatch'}      # data-dependent order: only "yylex assigns it" is checked
+
+def state_fields_accessed(F, fn, ops=('load', 'store')):
+    """{canonical name: instruction} of the fields / globals that fn loads or stores (any type)"""
+    out = {}
+    F.o(fn); res = F.res[fn.name]
+    for x in fn.ins:
+        if x.op not in ops: continue
+        c = ir.loc_class(res.loc(x.ops[0] if x.op == 'load' else x.ops[1]))
+        if c and c[0] == 'field': out.setdefault(ccanon(c[2]), x)
+        elif c and c[0] == 'global': out.setdefault(ccanon(c[1]), x)
+    return out
+
+def c_init_set(mod, F):
+    """canonical names of the scanner-state objects that yy_init_globals of a C scanner (cpp skeleton) stores"""
+    for fn in mod.functions.values():
+        if fkey(fn) == 'yy_init_globals': return set(state_fields_accessed(F, fn, ('store',)))
+    return set()
+
+def r8(rep, v, prog, mod, F, cinit, rule='C13.R8'):
+    """C++: every member that the C sibling's yy_init_globals resets, and that some member function reads, is given a value on
+    every constructor path (a lexer object built in recycled storage must not inherit the previous occupant's state)"""
+    n = 0
+    ctors = [f for f in mod.functions.values() if f.blocks and re.match(r'_ZN\d+\w+FlexLexerC2E', f.name) and f.linkage != 'linkonce']
+    if not ctors: rep.broken('C++ variant %s defines no yyFlexLexer constructor' % v.name)
+    members = set()
+    for t in mod.types:
+        if re.match(r'class\.(\w*FlexLexer)(\.base)?$', t):
+            members |= {ccanon(x) for x in (mod.struct_fields(t) or [])}
+    reads = {}
+    for fn in mod.functions.values():
+        if not fn.blocks or fn in ctors or fn.name in F.wrappers or fn.linkage == 'linkonce': continue
+        if '::' not in norm(fn.name): continue
+        for k, x in state_fields_accessed(F, fn, ('load',)).items(): reads.setdefault(k, x)
+    need = sorted(cinit & members & set(reads))
+    if len(need) < 8: rep.broken('C13.R8: only %d members of the C++ lexer of %s are both reset by the C initialiser and read (%s)' % (len(need), v.name, need))
+    byk = {}
+    for f in mod.functions.values(): byk.setdefault(fkey(f), []).append(f)
+    for ct in ctors:
+        tree = F.reachable_fns([ct.name])
+        inited = set()
+        for fname in tree:
+            f = mod.functions.get(fname)
+            if f is None or not f.blocks: continue
+            inited |= set(state_fields_accessed(F, f, ('store',)))
+            # members of class type are initialised by a constructor call on their address (yyin, yyout)
+            F.o(f); res = F.res[f.name]
+            for x in f.ins:
+                if x.op in ('call', 'invoke') and x.ops:
+                    c = ir.loc_class(res.loc(x.ops[0]))
+                    if c and c[0] == 'field': inited.add(ccanon(c[2]))
+        for k in need:
+            n += 1
+            if k in inited:
+                rep.ok(rule, '%s %s: member %s (reset by yy_init_globals in C scanners, read in %s) is initialised' % (v.name, norm(ct.name), k, reads[k].fn.name)); continue
+            if k in R8_EXCEPT and _written_before_read(F, prog, byk.get('yylex', []), k, k in R8_WEAK):
+                rep.ok(rule, '%s %s: member %s excepted - %s (checked in yylex)' % (v.name, norm(ct.name), k, R8_EXCEPT[k])); continue
+            rep.fail(rule, '%s:%s:ctor_common:uninitialised:%s' % (rule, skel(v), k), fwhere(ct),
+                     'the C++ lexer constructor leaves member %s without a value although %s reads it and yy_init_globals of the C scanners resets it: an object '
+                     'constructed in recycled storage inherits the previous occupant\'s value [variant %s]' % (k, reads[k].fn.name, v.name), variant=v.describe(),
+                     replay_input='%option c++ stack; { yyFlexLexer *a = new yyFlexLexer; run it with yy_push_state; delete a; yyFlexLexer *b = new yyFlexLexer; b->yylex() with a yy_push_state action }')
+    return n
+
+def _written_before_read(F, prog, fns, k, weak=False):
+    """in each of fns no load of field k is reachable from the entry without passing a store to k"""
+    if not fns: return False
+    for fn in fns:
+        F.o(fn); res = F.res[fn.name]
+        st = []; ld = []
+        for x in fn.ins:
+            if x.op in ('load', 'store'):
+                c = ir.loc_class(res.loc(x.ops[0] if x.op == 'load' else x.ops[1]))
+                if c and c[0] == 'field' and ccanon(c[2]) == k: (st if x.op == 'store' else ld).append(x)
+        if not ld: continue
+        if weak:
+            if not st: return False
+            continue
+        r = prog.cfg(fn).reach(fn.entry.ins[0], avoid=st, include_start=True)
+        if any(x in r for x in ld): return False
+    return True
+
 def controls(ctx):
     rep = ctx.rep
     mod = compile_control(ctx, 'c13_control.c')
@@ -904,10 +995,18 @@ def run(ctx):
     nctl = controls(ctx)
     vs = ctx.variants()
     rep.require(len(vs) >= 100, 'only %d scanner variants compiled to IR' % len(vs))
-    tot = dict(R1=0, R2=0, R3=0, R4=0, R5=0, R6=0); nrej = 0; nfn = 0
+    tot = dict(R1=0, R2=0, R3=0, R4=0, R5=0, R6=0, R8=0); nrej = 0; nfn = 0
+    # what the C scanners of the cpp skeleton reset in yy_init_globals (union over the nr / r variants): reference for R8
+    cinit = set(); flows = {}
+    for v in vs:
+        if v.backend in ('nr', 'r'):
+            mod = variants.module(v); flows[v.name] = Flow(variants.program(v), mod)
+            cinit |= c_init_set(mod, flows[v.name])
+    rep.require(len(cinit) >= 12, 'yy_init_globals of the C scanners resets only %d objects (%s)' % (len(cinit), sorted(cinit)))
     for v in vs:
         mod = variants.module(v); prog = variants.program(v)
-        F = Flow(prog, mod)
+        F = flows.pop(v.name, None) or Flow(prog, mod)
+        if v.backend == 'cxx': tot['R8'] += r8(rep, v, prog, mod, F, cinit)
         nfn += len(mod.functions)
         tot['R1'] += r1(rep, v, prog, mod, F)
         tot['R2'] += r2(rep, v, prog, mod, F)
@@ -929,6 +1028,7 @@ def run(ctx):
     rep.floor('C13.R3', 100, 'measured 114: 6 buffer-activation events in each of 19 REJECT variants')
     rep.floor('C13.R4', 880, 'measured 966: 6-14 releases of stored pointers + the slot clearing per variant')
     rep.floor('C13.R5', 1100, 'measured 1195: 4-7 lazily initialised locations + destroy order + 4-6 companions per variant')
+    rep.floor('C13.R8', 280, 'measured 316 (quick): 10-16 members x 2 constructors in each C++ variant')
     rep.floor('C13.R7', 6, 'th.th_version in yytbl_fload of every tables-file variant')
     rep.floor('C13.R6', 300, 'measured 335: 2-3 allocation sites of yy_ch_buf per variant')
     rep.undecided += ['absence of out-of-bounds accesses driven by table contents or input length', 'use of uninitialised memory',
